@@ -523,8 +523,9 @@ FIRED = [False]
 
 
 def _trampoline(op, detail):
-    # every op, in a history and in its reference, is entered at the same Python stack depth
-    return _do_op(op, detail)
+    # every op, in a history and in its reference, is entered with the same recursion headroom
+    with core.FixedHeadroom():
+        return _do_op(op, detail)
 
 
 def _nonjson(o):
@@ -713,7 +714,7 @@ def new_agg():
     return {"histories": 0, "ops": 0, "compared": 0, "fault_ops": 0, "fault_ops_fired": 0, "op_kinds": {},
             "distinct": set(), "pairs": set(), "violations": [], "probes": {}, "ref_hits": 0, "ref_misses": 0,
             "faults_fired": {}, "exc_results": 0, "samples": [], "wall": 0.0, "faulted_installs": 0,
-            "digest": 0}
+            "digest": 0, "digest_verdict": 0}
 
 
 def _probe(agg, name, n=1):
@@ -777,6 +778,7 @@ def account(agg, h, recs, viols):
         prev = k
         if rec is not None:
             agg["digest"] ^= int(canon.digest([h.index, j, rec["d"]])[:12], 16)
+            agg["digest_verdict"] ^= int(canon.digest([h.index, j, op, rec.get("x")])[:12], 16)
     if len([o for o in h.ops if o[0] != "install"]) >= 2 and len(kinds - {"install"}) >= 2:
         agg["distinct"].add(h.key())
     if any(o[0] == "std" for o in h.ops):
@@ -791,6 +793,12 @@ def account(agg, h, recs, viols):
                                                            ["install", o[1], o[3], o[2][:10]] for o in h.ops]})
 
 
+def digest_run(n, workers, shard=4):
+    shards = [(lo, min(n, lo + shard)) for lo in range(0, n, shard)]
+    tot = merge(core.run_sharded(run_shard, shards, workers))
+    return "%012x" % tot["digest"], "%012x" % tot["digest_verdict"], tot
+
+
 def merge(aggs):
     tot = new_agg()
     for a in aggs:
@@ -798,6 +806,7 @@ def merge(aggs):
                   "exc_results"):
             tot[k] += a[k]
         tot["digest"] ^= a["digest"]
+        tot["digest_verdict"] ^= a["digest_verdict"]
         tot["wall"] = max(tot["wall"], a["wall"])
         for dk in ("op_kinds", "probes", "faults_fired"):
             for k, v in a[dk].items():
@@ -893,7 +902,7 @@ def _detail_diff(h_ops, images, memo, sig):
 # ------------------------------------------------------------------------------ driver
 
 TIERS = {
-    "quick": {"histories": 2600, "produce": (2, 2), "wall_cap": 110, "shard": 10},
+    "quick": {"histories": 2000, "produce": (2, 2), "wall_cap": 110, "shard": 10},
     "thorough": {"histories": 40000, "produce": (10, 12), "wall_cap": 3000, "shard": 20},
 }
 
